@@ -13,6 +13,11 @@ def run(ctx):
     rg.run_tables(ctx, "R07.1e", "R07.1i")
     rg.rule_units(ctx, "R07.2")
     rg.rule_closure(ctx, "R07.3")
+    # nets come back by testing which shapes contain the label point; a polygon must not come back as another shape
+    from rules import geomrules as gm
+    gm.rule_rect_contains(ctx, "R07.5")
+    gm.rule_bbox_contains(ctx, "R07.5b")
+    gm.rule_boundary_as_rect(ctx, "R07.6", ctx.tier)
     # ---- R07.4 polygon label lies inside: every Ok return of Polygon::label_location is guarded by contains()
     ctx.rule("R07.4", "a polygon's label point is only returned after the polygon's own containment test accepted that point")
     fs = [f for f in F.fns.values() if f.id.startswith(rg.PFX) and f.trait and "PlaceLabels" in f.trait and (f.self_ty or {}).get("s", "").endswith("geom::Polygon")]
